@@ -7,7 +7,7 @@ use std::panic::{catch_unwind, AssertUnwindSafe};
 use rt::alloc::{self, track, Block};
 use rt::case::{pick, ByteCase};
 use rt::run::{CaseReport, Engine};
-use rt::tok::{self, Payload, State, Tok16, Tok1, Tok4, Tok8, Tok8b};
+use rt::tok::{self, Payload, Plain8, State, Tok16, Tok1, Tok4, Tok8, Tok8b, TokZ};
 use rt::viol;
 use triomphe::{Arc, HeaderSlice, OffsetArc, UniqueArc};
 
@@ -63,6 +63,33 @@ fn check_all_dropped_once(cx: &Cx, ids: &[u32], when: &str) {
     }
 }
 
+/// a (possibly zero-sized) header must have been destroyed exactly once by now
+fn check_header_once<Hd: TokP>(cx: &Cx, hdr_id: Option<u32>, when: &str) {
+    if Hd::ZST {
+        if let Some((made, dropped)) = Hd::z_stats() {
+            if dropped != made || Hd::live_now() != Some(0) {
+                viol::report(P, "I.zst-header", format!("{}: {} zero-sized headers were created but {} destructor runs happened {}", cx.what, made, dropped, when));
+            }
+        }
+    } else if let Some(id) = hdr_id {
+        check_all_dropped_once(cx, &[id], when);
+    }
+}
+/// ... and must still be alive (not destroyed at all) while the handle lives
+fn check_header_alive<Hd: TokP>(cx: &Cx, hdr_id: Option<u32>) {
+    if Hd::ZST {
+        if let Some((made, dropped)) = Hd::z_stats() {
+            if dropped != 0 || made != 1 {
+                viol::report(P, "I.zst-header", format!("{}: the zero-sized header was destroyed {} time(s) while the handle is alive ({} made)", cx.what, dropped, made));
+            }
+        }
+    } else if let Some(id) = hdr_id {
+        if tok::info(id).map(|t| t.state) != Some(State::Live) {
+            viol::report(P, "I.header-early-drop", format!("{}: the header was destroyed while the handle is alive", cx.what));
+        }
+    }
+}
+
 fn check_freed(cx: &Cx, bl: &Block) {
     if let Some(b) = alloc::block_by_seq(bl.seq) {
         if b.live {
@@ -80,7 +107,7 @@ impl<Hd: TokP, El: TokP> UninitEngine<Hd, El> {
     fn sized(cx: &mut Cx, c: &ByteCase) {
         let via_unique = c.p(1) & 1 == 1;
         let written = c.p(2) & 1 == 1;
-        let nclones = pick(c.p(3), 3);
+        let nclones = pick(c.p(3), 5);
         let fate = pick(c.p(4), 4);
         cx.what = format!(
             "{}::new_uninit::<{}>, {}written, {} extra clones, fate {}",
@@ -130,6 +157,7 @@ impl<Hd: TokP, El: TokP> UninitEngine<Hd, El> {
                     r.peekp().id
                 }));
                 let shared = nclones > 0;
+                let r_wrote = r.is_ok();
                 match r {
                     Ok(id) => {
                         if shared {
@@ -153,10 +181,11 @@ impl<Hd: TokP, El: TokP> UninitEngine<Hd, El> {
                 }
                 // every other handle's view is intact
                 if let Some(id) = ids.first() {
+                    let expect_val = if r_wrote { v0 + 1 } else { v0 };
                     for cl in &clones {
                         let p = unsafe { cl.assume_init_ref() }.peekp();
-                        if !p.ok || p.id != *id {
-                            viol::report(P, "I.view-changed", format!("{}: another handle now reads {:?} (expected tok {})", cx.what, p, id));
+                        if !p.ok || p.id != *id || p.val != expect_val {
+                            viol::report(P, "I.view-changed", format!("{}: another handle now reads {:?} (expected tok {} val {})", cx.what, p, *id as i64, expect_val));
                         }
                     }
                 }
@@ -201,7 +230,7 @@ impl<Hd: TokP, El: TokP> UninitEngine<Hd, El> {
                     let o: OffsetArc<El> = lib!(Arc::into_raw_offset(init));
                     lib!(drop(inits));
                     for id in &ids {
-                        if tok::info(*id).map(|t| t.state) != Some(State::Live) {
+                        if *id != tok::NONE && tok::info(*id).map(|t| t.state) != Some(State::Live) {
                             viol::report(&["C15", "C01"], "I.early-drop", format!("{}: element destroyed while an OffsetArc still owns it", cx.what));
                         }
                     }
@@ -221,9 +250,9 @@ impl<Hd: TokP, El: TokP> UninitEngine<Hd, El> {
     /// slices: Arc<[MaybeUninit<El>]>, UniqueArc<[MaybeUninit<El>]>, UniqueArc<HeaderSlice<Hd,[MaybeUninit<El>]>>
     fn slice(cx: &mut Cx, c: &ByteCase, with_header: bool) {
         let via_unique = c.p(1) & 1 == 1 || with_header;
-        let len = pick(c.p(2), 25);
+        let len = [0usize, 1, 2, 3, 4, 5, 6, 7, 8, 9, 10, 12, 15, 16, 17, 20, 24, 25, 31, 32, 33, 48, 63, 64, 65, 100][pick(c.p(2), 26)];
         let mask = u32::from_le_bytes([c.p(5), c.p(6), c.p(7), c.p(8)]);
-        let nclones = pick(c.p(3), 3);
+        let nclones = pick(c.p(3), 5);
         let fate = pick(c.p(4), 4);
         if El::ZST {
             return;
@@ -249,7 +278,8 @@ impl<Hd: TokP, El: TokP> UninitEngine<Hd, El> {
         };
         if with_header {
             let mut u = lib!(UniqueArc::<HeaderSlice<Hd, [MaybeUninit<El>]>>::from_header_and_uninit_slice(Hd::make(77), len));
-            hdr_id = Some(u.header.peekp().id);
+            hdr_id = if Hd::ZST { None } else { Some(u.header.peekp().id) };
+            check_header_alive::<Hd>(cx, hdr_id);
             if u.slice.len() != len {
                 viol::report(&["C15", "C06"], "I.len", format!("{}: slice has {} slots", cx.what, u.slice.len()));
             }
@@ -259,7 +289,7 @@ impl<Hd: TokP, El: TokP> UninitEngine<Hd, El> {
             if fate == 0 || fate == 2 {
                 lib!(drop(u));
                 check_written_leaked(cx, &written);
-                check_all_dropped_once(cx, &[hdr_id.unwrap()], "after the uninitialised handle was dropped (the header is initialised)");
+                check_header_once::<Hd>(cx, hdr_id, "after the uninitialised handle was dropped (the header is initialised)");
                 check_freed(cx, &bl);
                 cx.nt = nwritten > 0 && nwritten < len;
                 if cx.nt {
@@ -283,12 +313,14 @@ impl<Hd: TokP, El: TokP> UninitEngine<Hd, El> {
                 lib!(drop(a));
                 let all: Vec<u32> = ids.iter().flatten().copied().chain(hdr_id).collect();
                 for id in &all {
-                    if tok::info(*id).map(|t| t.state) != Some(State::Live) {
+                    if *id != tok::NONE && tok::info(*id).map(|t| t.state) != Some(State::Live) {
                         viol::report(&["C15", "C01"], "I.early-drop", format!("{}: tok {} destroyed while a clone still owns the allocation", cx.what, id));
                     }
                 }
+                check_header_alive::<Hd>(cx, hdr_id);
                 lib!(drop(cl));
                 check_all_dropped_once(cx, &all, "after the last initialised handle was released");
+                check_header_once::<Hd>(cx, hdr_id, "after the last initialised handle was released");
                 check_freed(cx, &bl);
                 cx.nt = true;
                 cx.labels.push("assume_init-then-release-via-other-kind");
@@ -369,7 +401,7 @@ impl<Hd: TokP, El: TokP> UninitEngine<Hd, El> {
                     for (i, s) in cl.iter().enumerate() {
                         if let Some(id) = ids[i] {
                             let p = unsafe { s.assume_init_ref() }.peekp();
-                            if !p.ok || p.id != id {
+                            if !p.ok || p.id != id || p.val != 1000 + i as u64 {
                                 viol::report(P, "I.view-changed", format!("{}: another handle's slot {} now reads {:?}", cx.what, i, p));
                             }
                         }
@@ -415,7 +447,7 @@ impl<Hd: TokP, El: TokP> UninitEngine<Hd, El> {
                     lib!(drop(init));
                     lib!(drop(inits));
                     for id in &all {
-                        if tok::info(*id).map(|t| t.state) != Some(State::Live) {
+                        if *id != tok::NONE && tok::info(*id).map(|t| t.state) != Some(State::Live) {
                             viol::report(&["C15", "C01"], "I.early-drop", format!("{}: tok {} destroyed while a clone still owns the allocation", cx.what, id));
                         }
                     }
@@ -472,5 +504,8 @@ pub fn engines() -> Vec<Box<dyn Engine>> {
         Box::new(UninitEngine::<Tok1, Tok16>::new()),
         Box::new(UninitEngine::<Tok16, Tok1>::new()),
         Box::new(UninitEngine::<Tok4, Tok4>::new()),
+        // a zero-sized header with a destructor; elements without drop glue
+        Box::new(UninitEngine::<TokZ<3>, Tok8>::new()),
+        Box::new(UninitEngine::<Tok8b, Plain8>::new()),
     ]
 }
